@@ -399,7 +399,8 @@ fn kinds(tier: Tier, deep: bool) -> Vec<&'static str> {
         "NaN,4,1,0,100,1,0",    // Tnan (rejected)
     ];
     if !deep {
-        k.extend(["-100,4,1,0,100,1,0", "500,4,1,0,100,0,0", "400"]);
+        // "-100.5": velocity / scroll speed 0.995..., within 0.01 of the default and of I-100 but not redundant
+        k.extend(["-100,4,1,0,100,1,0", "500,4,1,0,100,0,0", "400", "-100.5,4,1,0,100,0,0"]);
     }
     if tier.thorough() && !deep {
         k.extend(["-1000,4,3,2,100,0,0", "-5,3,1,0,101,0,9"]);
@@ -631,7 +632,7 @@ fn field_menus(tier: Tier) -> Vec<Vec<&'static str>> {
     let t = tier.thorough();
     let mut time = vec!["0", "10", "-5.5", " 7 ", "2147483647", "2147483648", "NaN", "x", ""];
     let mut beat = vec![
-        "500", "5", "6", "60000", "60001", "-1001", "-1000", "-10", "-9", "-10001", "-10000", "-100", "0", "NaN",
+        "500", "5", "6", "60000", "60001", "-1001", "-1000", "-10", "-9", "-10001", "-10000", "-100", "-100.5", "-99.9999", "0", "NaN",
         "inf", "2147483648", "-2147483648", "x",
     ];
     let mut sig = vec!["4", "3", "0", "07", "-1", "x", "2147483648"];
